@@ -67,6 +67,7 @@ class BadOp(object):
 
 class Run(object):
     """one execution of a case on the real scheduler"""
+    inline = True
     def __init__(self, recoco, case):
         self.rc = recoco
         self.case = case
@@ -97,6 +98,16 @@ class Run(object):
         self.tstarted = {}          # timer index -> True once start() has been called
         self.cancelled = {}         # timer index -> True once a task has called cancel()
         self.threaded = False
+        # the harness's own account of where every top-level task / timer is in its life ("queued", "running", "hub", "blocked",
+        # "sub" = waiting for a sub-task, "waking" = blocked with a cross-thread wake on its way, "done", "gone"): from the yields
+        # the bodies make and from calls of the public Scheduler.fast_schedule / SelectHub.registerSelect - never from the
+        # scheduler's own queues, which are what a `wake` is there to test
+        self.life = {}
+        self.step_of = {}           # tid -> index of the step a top-level task executed last
+        self.prog_of = {}           # tid -> program of a top-level task
+        self.tops = []              # top-level task objects by tid
+        self.wakes = []             # [position in trace, waker tid, target tid, spelling, kind]
+        self.st_used = {}           # target tid -> True once a cross-thread wake (ScheduleTask) was issued for it
 
     def now(self):
         u = self.clock.now * UNIT
@@ -196,7 +207,13 @@ class Run(object):
             if top and y[1] % 8 == 0 and pick(2): return y[1] // 8, [now + y[1], False]      # an int number of seconds
             return y[1] / UNIT, [now + y[1], False]
         if tag == "block": return False, None
+        if tag == "dead": return False, None                          # stands for a `raise` in the isolation re-run (see body())
         if tag == "badop": return self.badop(), None
+        if tag == "dummy":                                            # DummyOp(v): "returns" v at once - the task is rescheduled
+            return (rc.DummyOp(y[1]) if pick(2) == 0 else rc.DummyOp(rv=y[1])), None
+        if tag == "wake":                                             # Scheduler.schedule(task y[1]) in spelling y[2], then `yield 0`
+            kind = self.do_wake(tid, y[1], y[2])
+            return (False if kind == "self" else 0), None             # a task that scheduled itself just gives up its slice
         if tag == "sleep":
             if y[1] is None: return (rc.Sleep() if pick(2) == 0 else rc.Sleep(None)), None
             d = sec(y[1]); c = pick(5)
@@ -268,8 +285,90 @@ class Run(object):
             return 0, None
         raise ValueError(tag)
 
+    SAFE_NEXT = ("block", "wake", "cancel", "tstart", "dummy", "raise", "braise", "dead")
+
+    def next_safe(self, k):
+        """will task k, which is in the ready queue now, after its next step be queued, blocked (yield False / Sleep(None)) or
+        finished?  Only then may a wake that is carried out later (ScheduleTask) be sent after it: waking a task that waits in
+        the hub or for a sub-task is a misuse of the API, not a test of it."""
+        prog = self.prog_of[k]; i = self.step_of.get(k, -1) + 1
+        if i >= len(prog): return True
+        y = prog[i]
+        return y[0] in self.SAFE_NEXT or y == ["num", 0] or y == ["sleep", None]
+
+    def do_wake(self, tid, k, how):
+        """The running task `tid` schedules task `k` (a top-level task or a timer), in one of the spellings of the public API:
+        0 schedule(t)  1 schedule(t, False)  2 schedule(task=t, first=True)  3 t.start(sched)  4 schedule(t) as called from a
+        foreign thread (-> ScheduleTask)  5 t.start(scheduler=sched, priority=None, fast=False)  6 fast_schedule(t)
+        7 t.start(sched, None, True)  (6 and 7 only where the documentation allows them: the target is not queued).
+        What is done depends on where the harness knows the target to be:
+          queued   -> the call is made and must change nothing ("noop"; spelling 4: "st-q", carried out after the target's next step)
+          blocked  -> the call is made and wakes it ("eff"; spelling 4: "st-b")
+          finished -> the call is made and must be harmless ("done")
+          itself   -> schedule(self), then `yield False` instead of `yield 0` ("self")
+          waiting in the hub / for a sub-task, descheduled by a failed operation, unknown -> no call ("skip")"""
+        sched = self.sched; ntop = self.ntop; pos = len(self.trace)
+        def rec(kind, h=how):
+            self.wakes.append([pos, tid, k, h, kind]); return kind
+        if not self.inline or k >= ntop + len(self.timers): return rec("skip")
+        def state_of(t):
+            """the harness's account; a task that can be seen in the ready deque is queued whatever way it got there (the deque is
+            looked at only to find more redundant wakes, e.g. of tasks the hub has just released: schedule() of a task that is
+            in the deque is by definition one that must change nothing)"""
+            st = self.life.get(k)
+            try:
+                if st != "queued" and any(x is t for x in sched._ready): st = "queued"
+            except Exception: pass
+            return st
+        if k >= ntop:                                                # a timer: only the redundant wake of a queued, still active timer
+            j = k - ntop
+            if state_of(self.timers[j]) != "queued" or self.timer_due[j] is None or self.cancelled.get(j) or any(c == j for _, c in self.cbcancel):
+                return rec("skip")
+            h = how if how in (0, 1, 2) else 0                         # (Timer.start() may be called once only)
+            t = self.timers[j]
+            if h == 0: sched.schedule(t)
+            elif h == 1: sched.schedule(t, False)
+            else: sched.schedule(task=t, first=True)
+            return rec("noop", h)
+        t = self.tops[k]
+        state = self.life.get(k) if k == tid else state_of(t)
+        if k == tid:
+            if how % 2: t.start(sched)
+            else: sched.schedule(t)
+            return rec("self", how % 2)
+        def foreign():
+            mine = sched._thread
+            sched._thread = None                                     # "not the scheduler's thread": schedule() hands the wake to a ScheduleTask
+            try: sched.schedule(t)
+            finally: sched._thread = mine
+        def direct(h):
+            if h == 0: sched.schedule(t)
+            elif h == 1: sched.schedule(t, False)
+            elif h == 2: sched.schedule(task=t, first=True)
+            elif h == 3: t.start(sched)
+            elif h == 5: t.start(scheduler=sched, priority=None, fast=False)
+            elif h == 6: sched.fast_schedule(t)
+            else: t.start(sched, None, True)
+        if state == "queued":
+            if how == 4 and not self.st_used.get(k) and self.next_safe(k):
+                self.st_used[k] = True; foreign(); return rec("st-q")
+            h = {4: 0, 6: 1, 7: 3}.get(how, how)
+            direct(h); return rec("noop", h)
+        if state == "blocked":
+            if self.st_used.get(k): return rec("skip")                # a wake is on its way / was delivered: nothing may race with it
+            if how == 4:
+                self.st_used[k] = True; self.life[k] = "waking"; foreign(); return rec("st-b")
+            direct(how); return rec("eff")
+        if state == "done":
+            h = {6: 0, 7: 3}.get(how, how)
+            if h == 4: foreign()
+            else: direct(h)
+            return rec("done", h)
+        return rec("skip")
+
     def body(self, tid, prog):
         i = 0; recv = None; wake = None; uncaught = None
+        top = tid < self.ntop
         while True:
             if self.running is not None: self.overlap += 1
             self.running = tid
@@ -280,19 +379,32 @@ class Run(object):
             self.pending.pop(tid, None)
             raw = self.last_ret.pop(tid, recv if (recv is None or recv[0] != "exc") else None)
             self.trace.append(["s", tid, i, self.now(), recv, wake, raw])
+            if top: self.life[tid] = "running"; self.step_of[tid] = i
             try:
-                if uncaught is not None: raise uncaught
-                if i == len(prog): return
-                y = prog[i]
-                if y[0] == "raise": raise raised_class(self.conv, tid, i)(y[1])
-                if y[0] == "braise": raise raised_class(self.conv, tid, i, y[1])(y[1])
+                try:
+                    if uncaught is not None: raise uncaught
+                    if i == len(prog):
+                        if top: self.life[tid] = "done"
+                        return
+                    y = prog[i]
+                    if y[0] == "raise": raise raised_class(self.conv, tid, i)(y[1])
+                    if y[0] == "braise": raise raised_class(self.conv, tid, i, y[1])(y[1])
+                except BaseException:
+                    if top: self.life[tid] = "done"                 # the generator is finished
+                    raise
                 val, wake = self.build(y, tid)
                 if wake is not None and wake[0] == "send": wake = ("send", wake[1])
                 elif wake is not None and (y[0] != "num" or tid < self.ntop): self.pending[tid] = wake[0]     # `yield n` in a sub-task is its result
+                if top:                                             # where the task is once the scheduler has dealt with this yield
+                    t_ = y[0]
+                    self.life[tid] = ("queued" if (t_ in ("cancel", "tstart", "wake", "dummy") or y == ["num", 0]) else
+                                      "blocked" if (t_ == "block" or y == ["sleep", None]) else
+                                      "sub" if t_ == "again" else "done" if t_ == "dead" else "gone" if t_ in ("exit", "badop") else "hub")
             finally:
                 self.running = None
             try:
                 v = yield val
+                if y[0] == "dead": return                           # (isolation re-run) a finished task that is scheduled again does nothing
                 recv = self.canon_recv("val", v)
                 if isinstance(v, tuple):                              # the result belongs to the task: scribbling on it must not matter
                     for l in v:
@@ -322,6 +434,7 @@ class Run(object):
         acts = [a for a in self.case.get("cbacts", ()) if a[0] == j]
         def cb(*a, **k):
             n = st["n"]; st["n"] += 1
+            H.life[tid] = "running"                              # until Timer.run() sleeps again (hub) or ends (stays: never scheduled by a wake)
             if (a, k) != (args, kw) and H.cb_bad is None: H.cb_bad = "timer %d callback called with %r %r" % (j, a, k)
             H.trace.append(["f", tid, n, H.now()])
             stop = false_at == n
@@ -330,6 +443,9 @@ class Run(object):
                 if a_[1] == n and a_[2] == "cancel":             # [j, n, "cancel", k]: the callback cancels timer k (possibly itself)
                     H.timers[a_[3]].cancel(); H.timer_due[a_[3]] = None
                     H.cbcancel.append([len(H.trace), a_[3]])
+            for a_ in acts:
+                if a_[1] == n and a_[2] == "wake":               # [j, n, "wake", k, h]: the callback schedules task / timer k (spelling h)
+                    H.do_wake(tid, a_[3], a_[4])
             for a_ in acts:
                 if a_[1] == n and a_[2] == "raise":              # [j, n, "raise", c]: the callback raises (class c): only this timer dies
                     H.timer_due[j] = None
@@ -382,24 +498,33 @@ class Run(object):
         H = self
         self.last_reg = {}
         real_register = hub.registerSelect
-        def register(task, *a, **kw):                               # notes when the real hub registers a wait (Send re-registers itself)
-            H.last_reg[H.tid(task)] = H.now()
-            return real_register(task, *a, **kw)
-        hub.registerSelect = register
         real_return = hub._return
         def _ret(task, val):                                        # notes what the hub puts into task.rv (the "raw" value of the next resume)
             H.last_ret[H.tid(task)] = H.canon_recv("val", val)
             return real_return(task, val)
         hub._return = _ret
+        real_fast = sched.fast_schedule
+        def fast_schedule(task, first=False):                       # the public entry to the ready queue: whoever passes here is queued
+            k = H.tid(task)
+            if 0 <= k < H.ntop + len(case["timers"]): H.life[k] = "queued"
+            return real_fast(task, first)
+        sched.fast_schedule = fast_schedule
+        def register(task, *a, **kw):                               # ... and whoever registers with the hub waits there (Send re-registers itself)
+            k = H.tid(task)
+            H.last_reg[k] = H.now()
+            if 0 <= k < H.ntop + len(case["timers"]): H.life[k] = "hub"      # (also a Send that re-registers itself without being resumed)
+            return real_register(task, *a, **kw)
+        hub.registerSelect = register
         draws = self.draws
         def scripted_random():                                      # Scheduler._random: the case's draw sequence, then 0
             return draws.pop(0) / UNIT if draws else 0.0
         sched._random = scripted_random
         class T(rc.BaseTask):
             def run(t, tid, prog): return H.body(tid, prog)
-        tops = []
+        tops = self.tops
         for k in case["tasks"]:
             tid = self.ntids; self.ntids += 1
+            self.prog_of[tid] = case["progs"][k]
             t = self.make_task(tid, case["progs"][k], T); tops.append(t)
             pr = case["prios"][tid] if tid < len(case.get("prios", ())) else None
             if self.conv and (self.conv + tid) % 5 == 0: t.start(sched, None if pr is None else pr / UNIT, True)    # positional, fast
@@ -434,14 +559,15 @@ class Run(object):
                "now": self.now(), "ready": [tid(t) for t in sched._ready], "incoming": [tid(e[0]) for e in list(hub._incoming.queue)],
                "hub": [tid(t) for t in hub._tasks], "subs": self.subs, "overlap": self.overlap, "run_exc": run_exc,
                "descheduled": text.count("de-scheduled"), "excs": excs, "queued_run": self.queued_run,
-               "overslept": self.overslept, "cb_bad": self.cb_bad, "cbcancel": self.cbcancel, "tstarts": self.tstarts}
+               "overslept": self.overslept, "cb_bad": self.cb_bad, "cbcancel": self.cbcancel, "tstarts": self.tstarts,
+               "wakes": self.wakes}
         # release the pinger pipe now (its __del__ would otherwise close recycled descriptor numbers later)
         p = hub._pinger
         for a in ("_r", "_w"):
             try: os.close(getattr(p, a))
             except OSError: pass
             setattr(p, a, -1)
-        sched.cycle = None; hub._select_func = None; hub.registerSelect = None; hub._return = None; sched._random = None
+        sched.cycle = None; hub._select_func = None; hub.registerSelect = None; hub._return = None; sched._random = None; sched.fast_schedule = None
         return obs
 
 
@@ -459,6 +585,7 @@ class ThreadedRun(Run):
     `select(..., t)`) or scripted descriptor readiness; `select(..., 0)` is a poll.  Nothing of recoco is edited: the
     primitives are installed as module attributes for the duration of the run."""
     MAX_STEPS = 8000
+    inline = False                                               # (no `wake` here: who schedules whom across threads is C07's subject)
 
     def go(self):
         import pox.lib.util as util
@@ -586,7 +713,8 @@ class ThreadedRun(Run):
                    "hub": [self.tid(t) for t in hub._tasks], "subs": self.subs, "overlap": self.overlap,
                    "run_exc": run_exc if run_exc else ("deadlock" if status == "deadlock" else None),
                    "descheduled": text.count("de-scheduled"), "excs": excs, "status": status, "steps": ctl.steps,
-                   "queued_run": self.queued_run, "overslept": None, "cb_bad": self.cb_bad, "cbcancel": self.cbcancel, "tstarts": self.tstarts}
+                   "queued_run": self.queued_run, "overslept": None, "cb_bad": self.cb_bad, "cbcancel": self.cbcancel, "tstarts": self.tstarts,
+                   "wakes": self.wakes}
             if status == "deadlock": obs["crashed"] = True
         finally:
             redir.close()
@@ -637,6 +765,8 @@ def rand_yield(rng, nsub_from, nprogs, ntimers, nfds, t0):
     opt = lambda: None if rng.random() < 0.3 else t()
     fl = lambda: rng.choice([[], [], None, [rng.randrange(nfds)], [rng.randrange(nfds)], [rng.randrange(nfds), rng.randrange(nfds)]])
     r = rng.random()
+    if r < 0.20: return ["num", 0]
+    if r < 0.215: return ["dummy", rng.choice([0, 3])]
     if r < 0.22: return ["num", 0]
     if r < 0.30: return ["num", t()]
     if r < 0.40: return ["sleep", t()]
@@ -679,6 +809,8 @@ def rand_case(rng, ntasks=None, maxlen=12):
     if ntimers and rng.random() < 0.08:                           # callbacks that cancel a timer (possibly their own) or raise: judged by the oracle alone
         c["cbacts"] = [([rng.randrange(ntimers), rng.choice([0, 0, 1, 2]), "cancel", rng.randrange(ntimers)] if rng.random() < 0.6 else
                         [rng.randrange(ntimers), rng.choice([0, 0, 1]), "raise", rng.randrange(10)]) for _ in range(rng.choice([1, 1, 2]))]
+        if rng.random() < 0.4:
+            c["cbacts"] += [[rng.randrange(ntimers), rng.choice([0, 0, 1, 2]), "wake", rng.randrange(ntop + ntimers), rng.randrange(8)] for _ in range(rng.choice([1, 2]))]
     if ntimers and rng.random() < 0.15:                           # timers built with started=False and started later by a task (oracle alone)
         for j, t in enumerate(c["timers"]):
             if rng.random() < 0.7:
@@ -686,6 +818,13 @@ def rand_case(rng, ntasks=None, maxlen=12):
                 t.append(kind)
                 for _ in range(rng.choice([1, 1, 2])):              # somebody starts it, at some point of some top-level program
                     k = rng.randrange(ntop); c["progs"][k].insert(rng.randint(0, len(c["progs"][k])), ["tstart", j])
+    if rng.random() < 0.3:                                        # tasks that schedule other tasks, timers, themselves
+        for _ in range(rng.choice([1, 2, 3, 5])):
+            k = rng.randrange(nprogs) if rng.random() < 0.2 else rng.randrange(ntop)
+            c["progs"][k].insert(rng.randint(0, len(c["progs"][k])), ["wake", rng.randrange(ntop + ntimers), rng.randrange(NHOW)])
+        if rng.random() < 0.5:                                      # ... and tasks that block until somebody does
+            for _ in range(rng.choice([1, 2])):
+                k = rng.randrange(ntop); c["progs"][k].insert(rng.randint(0, len(c["progs"][k])), rng.choice([BLOCK, SLEEPN]))
     return c
 
 
@@ -772,11 +911,112 @@ def hand_cases():
         yield mk([[["sleep", 8], ["tstart", 0], ["tstart", 1], ["sleep", 24]], [["sleep", 16], ["tstart", 2]]], [0, 1],
                  [[4, False, True, None, "abs"], [12, False, True, None, "abs"], [16, False, False, 0, "abs"], [6, True, True, 2]],
                  label="deferred timers: absolute deadlines", conv=cv, budget=120)
+    # a task is scheduled again by another task at every point of its life: in the queue (must change nothing), blocked (wakes it,
+    # once), finished (harmless), itself (= gives up its slice); every spelling of the call
+    for h in range(NHOW):
+        yield mk([[NUM0, SLEEP4, SLEEPN, NUM0], [W(0, h), NUM0, W(0, h)]], [0, 1], label="wake: queued by `yield 0`, then sleeps", conv=h)
+        yield mk([[BLOCK, SLEEP4, NUM0, BLOCK, NUM0], [W(0, h), W(0, h), ["sleep", 8], W(0, h), NUM0, W(0, h)]], [0, 1], label="wake: blocked, woken once", conv=h)
+        yield mk([[NUM0, RAISE], [NUM0], [NUM0, NUM0, W(0, h), W(1, h), SLEEP4, W(0, h), W(1, h)]], [0, 1, 2], label="wake: finished tasks", conv=h)
+        yield mk([[W(0, h), SLEEP4, W(0, h), NUM0], [W(1, h), W(0, h), W(1, h)]], [0, 1], label="wake: a task schedules itself", conv=h)
+        yield mk([[["again", 2, True], SLEEP4, NUM0], [W(0, h), NUM0, W(0, h), SLEEP4, W(0, h)], [SLEEP4, W(0, h), ["num", 5]]], [0, 1],
+                 label="wake: caller of a sub-task, sub-task that wakes", conv=h)
+    for i, (tg, n) in enumerate(itertools.product(([NUM0, SLEEP4, SLEEP4, SLEEP4, NUM0], [SLEEP4, SLEEP4, SLEEP4, NUM0], [BLOCK, NUM0, BLOCK, SLEEP4, BLOCK],
+                                                   [NUM0, NUM0, SLEEPN, NUM0, NUM0, RAISE]), (0, 1, 2))):
+        for h in (i % NHOW, (i + 3) % NHOW):                           # a timer callback schedules a task that is queued / blocked / finished
+            c = mk([tg, [["sleep", 20]]], [0, 1], [[4, True, True, 3], [2, True, False, None]], label="wake: from a timer callback", budget=100, conv=h)
+            c["cbacts"] = [[0, n, "wake", 0, h], [1, n + 1, "wake", 0, (h + 1) % NHOW], [1, 2 * n, "wake", 2, 0], [0, 1, "cancel", 1]]
+            yield c
+    for i, dr in enumerate(itertools.product([0, 8], repeat=5)):       # a caller of priority < 1 is handed back the CPU, loses the draw, and is scheduled
+        yield mk([[["again", 2, True], SLEEP4, NUM0], [W(0, i % NHOW), NUM0, W(0, (i + 3) % NHOW)], [["num", 3]]], [0, 1], prios=[2, 8], draws=list(dr) + [0] * 8,
+                 label="wake: caller that lost the draw", conv=i % 3)
     # timer callbacks that cancel timers, their own included
     for acts in ([[0, 0, "cancel", 0]], [[0, 1, "cancel", 1]], [[1, 0, "cancel", 0]], [[0, 0, "cancel", 1], [1, 0, "cancel", 0]], [[0, 2, "cancel", 0], [0, 2, "cancel", 1]]):
         for tm in ([[4, True, True, None], [4, True, False, None]], [[4, True, False, 1], [6, False, True, None]]):
             c = mk([[SLEEP4, ["sleep", 8], ["sleep", 40]]], [0], tm, label="callback cancels a timer", budget=80); c["cbacts"] = acts
             yield c
+
+
+# ---- tasks that schedule other tasks (Scheduler.schedule and its spellings; see Run.do_wake) -----------------------------
+
+NHOW = 8
+DUMMY0, DUMMY3 = ["dummy", 0], ["dummy", 3]
+
+
+def W(k, h=0):
+    return ["wake", k, h]
+
+
+def respell(case, i):
+    """the same case with the spelling of every wake chosen by the running number i (and the position of the wake)"""
+    c = dict(case); n = 0; progs = []
+    for p in case["progs"]:
+        q = []
+        for y in p:
+            if y[0] == "wake": y = ["wake", y[1], (i * 3 + n * 5 + y[2]) % NHOW]; n += 1
+            q.append(y)
+        progs.append(q)
+    c["progs"] = progs
+    return c
+
+
+def wake_ways(full=False):
+    """A task gets into the ready queue in each of the ways there are (never run yet; numeric yield 0; yield n > 0, Sleep, Select
+    timeout: released by the hub; Sleep until a time in the past; DummyOp; descriptor ready; Recv / Send; handed back by a
+    sub-task; woken from `yield False` / Sleep(None) by schedule(); having scheduled itself; after cancel()), is scheduled
+    again by another task at several moments (so also while it sits in the queue), and then blocks in each of the ways there
+    are: every step must still run once, and no wait may end early or twice."""
+    tg, wk = (0, 1), (1, 0)
+    ways = [[], [NUM0], [NUM4], [SLEEP0], [SLEEP4], [DUMMY3], [DUMMY0], [["sleepabs", T0 - 8]], [SEL_R0], [SEL_T], [["recv", 0, None]],
+            [["send", 2, 6, None, 4]], [["cancel", 0]], [["again", 2, True]], [["again", 3, True]], [BLOCK], [SLEEPN], ["self"]]
+    then = [[SLEEP4], [BLOCK], [SEL_T], [NUM4], [], [["recv", 0, 8]]] + ([[SLEEPN], [["sleep", 12]], [SEL_R1]] if full else [])
+    def wakers(t):
+        w = W(t)
+        return [[w], [NUM0, w], [SLEEP4, w], [SLEEP0, w], [w, w], [NUM0, NUM0, w], [SLEEP4, NUM0, w], [["sleep", 6], w], [w, NUM0, w],
+                [w, SLEEP4, w, w], [NUM4, w], [["sleep", 2], w]] + ([[["sleep", 8], w], [NUM4, w, NUM0, w], [DUMMY3, w], [w, w, w, w]] if full else [])
+    i = 0
+    for order in (0, 1):
+        t, k = (0, 1) if order == 0 else (1, 0)                     # tids of the target and of the waker
+        for way in ways:
+            for th in then:
+                head = [W(t)] if way == ["self"] else way
+                target = head + th + [NUM0]
+                for wp in wakers(t):
+                    progs = [target, wp, [["num", 3]], [SLEEP4, ["num", 5]]]
+                    c = mk(progs, [0, 1] if order == 0 else [1, 0], [[40, False, True, None]], FD_R, FD_W, FD_X, [4, 0], [], T0, 160, "wake: ways into the queue")
+                    c["conv"] = i % 7
+                    yield respell(c, i); i += 1
+
+
+def wake_timer_cases():
+    """redundant wakes of Timer tasks (queued after start(), queued after the hub released them) next to sleepers due at the same times"""
+    i = 0
+    for timers in ([[4, True, True, 2]], [[4, False, True, None], [4, True, False, None]], [[0, True, True, 1]]):
+        nt = len(timers)
+        for wp in ([W(1)], [SLEEP4, W(1)], [NUM0, W(1), W(nt)], [SLEEP4, NUM0, W(1), SLEEP4, W(1)], [["sleep", 8], W(1), W(nt), NUM0, W(1)],
+                   [W(1), W(1), SLEEP4, W(1), W(1), SLEEP4, W(1)]):
+            for other in ([SLEEP4, SLEEP4, NUM0], [NUM0, ["sleep", 8]]):
+                for cv in (0, 5):
+                    c = mk([wp, other], [0], timers, label="wake: timers", budget=80, conv=cv)      # tid 0 = the waker, tids 1.. = the timers
+                    yield respell(c, i); i += 1
+
+
+def wake_scopes(tier):
+    i = 0
+    for c in scope([NUM0, SLEEP4, BLOCK, W(0), W(1)], 2, 2, label="wake: scope2x2"):                  # 31^2
+        yield respell(c, i); i += 1
+    for c in scope([NUM0, BLOCK, DUMMY3, W(0), W(1), W(2)], 3, 1, timers=[], label="wake: scope3x1"):  # 7^3
+        yield respell(c, i); i += 1
+    for c in lottery_cases([NUM0, W(0), W(1)], 2, 2, label="wake: lottery"):                          # 13^2 x 5
+        yield respell(c, i); i += 1
+    for c in lottery_cases([["again", -1, True], W(0), W(1)], 2, 2, label="wake: lottery"):           # 13^2 x 5 (a caller that loses the draw after its sub-task returned)
+        yield respell(c, i); i += 1
+    if tier == "thorough":
+        for c in scope([NUM0, SLEEP4, BLOCK, SLEEPN, DUMMY0, W(0), W(1)], 2, 2, label="wake: scope2x2-wide"):     # 57^2
+            yield respell(c, i + 1); i += 1
+        for c in scope([NUM0, BLOCK, W(0), W(1)], 3, 2, timers=[], label="wake: scope3x2"):           # 21^3
+            yield respell(c, i); i += 1
+        for c in lottery_cases([NUM0, BLOCK, SLEEP4, W(0), W(1)], 2, 2, label="wake: lottery-wide"):  # 31^2 x 5
+            yield respell(c, i); i += 1
 
 
 def epoll_case(rng):
@@ -941,9 +1181,11 @@ class C06(Check):
                 "Pox.C06.wake_is_requested_trace", "Pox.C06.ready_returns", "Pox.C06.expired_returns", "Pox.C06.no_crash", "Pox.C06.isolation", "Pox.C06.isolation_gen", "Pox.C06.isolation_rf",
                 "Pox.C06.finished_never_runs", "Pox.C06.again_return", "Pox.C06.again_return_gen", "Pox.C06.caller_resumed_next",
                 "Pox.C06.delivery", "Pox.C06.fair_partial", "Pox.C06.timer", "Pox.C06.timer_stopped", "Pox.C06.timer_not_early",
+                "Pox.C06.schedule_queued_noop", "Pox.C06.schedule_at_most_once", "Pox.C06.schedule_wakes_blocked",
                 "Pox.C06.again_empty_defect", "Pox.C06.send_zero_defect"]
     # function bodies only (a `def` line executes at import time, not during a run); located by name in setup()
-    ANCHOR_FUNCS = [("BaseTask", "execute"), ("Scheduler", "fast_schedule"), ("Scheduler", "quit"), ("Scheduler", "run"), ("Scheduler", "cycle"),
+    ANCHOR_FUNCS = [("BaseTask", "execute"), ("BaseTask", "start"), ("Scheduler", "schedule"), ("ScheduleTask", "__init__"), ("ScheduleTask", "run"),
+                    ("DummyOp", "__init__"), ("DummyOp", "execute"), ("Scheduler", "fast_schedule"), ("Scheduler", "quit"), ("Scheduler", "run"), ("Scheduler", "cycle"),
                     ("Exit", "execute"), ("Sleep", "__init__"), ("Sleep", "execute"), ("Select", "__init__"), ("Select", "execute"),
                     ("Recv", "__init__"), ("Recv", "_recvReturnFunc"), ("Recv", "execute"), ("Send", "__init__"), ("Send", "_sendReturnFunc"),
                     ("Send", "execute"), ("AgainTask", "run_again"), ("Again", "__init__"), ("Again", "execute"), ("SelectHub", "idle"),
@@ -962,7 +1204,11 @@ class C06(Check):
                    "threaded tier: scheduler thread + hub thread switch only at operations of the synchronisation primitives "
                    "(Event, Queue, pinger, select, Lock) - finer-grained races between plain statements are C07's; CallBlocking threads are not run",
                    "select honours its timeout and reports every ready descriptor (virtual select: level-triggered scripted readiness)",
-                   "task programs are over the yield vocabulary of the model; tasks do not call scheduler methods themselves; no task yields None",
+                   "task programs are over the yield vocabulary of the model plus DummyOp and `wake` (Scheduler.schedule / fast_schedule / "
+                   "task.start() / schedule() as from a foreign thread, for another task, a timer or the caller itself); a wake is issued only "
+                   "for a target that is in the ready queue, blocked by `yield False` / Sleep(None), finished, or the caller itself - scheduling "
+                   "a task that waits in the hub or for a sub-task is a misuse recoco cannot absorb (the registration stays) and is never "
+                   "generated; at most one cross-thread wake (ScheduleTask) per target and run, none racing with another wake; no task yields None",
                    "times are multiples of 1/8 s, so float comparisons in the code agree with the model's integer comparisons",
                    "fewer than 1024 pings accumulate between two idle() calls (pongAll reads at most 1024 bytes; the model counts them)"]
     design_ref = "DESIGN.md §5 C06"
@@ -997,7 +1243,14 @@ class C06(Check):
                   "scheduler (sequential, random and PCT schedules, virtual time); the property oracle judges every run, and for program "
                   "tables whose outcome cannot depend on the interleaving (no Exit, cancel, scripted sockets, contended descriptors or "
                   "priorities < 1) each task's own sequence of (step, time, value/exception received, wake time) and each timer's firing "
-                  "times must equal the model's.")
+                  "times must equal the model's.  Tasks that schedule other tasks (`wake`): the model has Scheduler.schedule as a function on "
+                  "states but no yield that calls it; schedule_queued_noop (a call for a queued task changes nothing), schedule_at_most_once "
+                  "and schedule_wakes_blocked are about that function on every reachable state.  A run all of whose wakes hit queued tasks "
+                  "(in each of the ways a task gets into the queue, every spelling of the call) is compared in full with the model's run of the "
+                  "same programs with `yield 0` in their place; runs with effective wakes (blocked target), wakes of finished tasks, of the "
+                  "caller itself and cross-thread wakes (ScheduleTask) are judged by the oracle alone: one resume per wake, no lost wake, "
+                  "nothing resumed early or twice.  DummyOp(v) runs in the model as Sleep(0, absoluteTime=True) (both: fast_schedule at "
+                  "once); that v arrives is checked by the oracle.")
     level_note = ("Proved about the model (inline hub), tested for the code: the tie is the differential run.  The threaded hub is covered "
                   "by testing only: the hub's bookkeeping (_select, registerSelect, _return) is the same code in both modes and the theorems "
                   "are about that code's model, but the interleavings of the two threads are sampled (a few schedules per program, switches "
@@ -1021,9 +1274,10 @@ class C06(Check):
                   "worth knowing: the hub is polled only when the ready deque is empty, so a task that always yields 0 starves all timed "
                   "waiters.")
     rule = ("case = (program table over the yield vocabulary, task list, timers, fd readiness times, socket scripts, start time, cycle budget"
-            "[, mode=threaded + schedule (sequential|random|PCT, seed)]); corpus = 40 hand-written scenarios (incl. falsy results 0/False/b""/None, several deadlines and "
+            "[, mode=threaded + schedule (sequential|random|PCT, seed)]); corpus = 153 hand-written scenarios (incl. falsy results 0/False/b""/None, several deadlines and "
             "descriptors due in one hub sweep, timer callbacks that cancel timers or raise, operations whose execute() raises, BaseException-only classes in tasks / "
-            "sub-tasks / operations, timers started later by a task) + exhaustive scopes (every "
+            "sub-tasks / operations, timers started later by a task, tasks scheduled again by other tasks while queued / blocked / finished / running) + "
+            "directed family: 18 ways into the ready queue x 6 ways to block afterwards x 12 wakers x 2 start orders, spellings of schedule() by running number + exhaustive scopes (every "
             "assignment of programs of <= L yields over an alphabet to N ordered tasks) + the threaded scenarios x 6 schedules + two threaded "
             "3-task scopes; non-trivial = the real run contains a timed resume, a sub-task step or a timer firing")
 
@@ -1083,6 +1337,9 @@ class C06(Check):
             c["conv"] = i % 4; cases.append(c)
         for i, c in enumerate(scope([NUM0, SEL_R1, ["select", [1], [], [], 4]], 2, 1, label="hidden state")):       # each followed by the canary
             for cv in (0, 9): d = dict(c); d["conv"] = cv; cases.append(d)
+        cases += list(wake_ways())                                               # 18 x 6 x 12 x 2
+        cases += list(wake_timer_cases())
+        cases += list(wake_scopes("quick"))
         # threaded select hub (forced thread scheduler)
         cases += list(thr_hand_cases())
         for i, c in enumerate(scope(TH_A, 3, 1, timers=[], label="thr-scope3x1")):      # 7^3
@@ -1105,6 +1362,9 @@ class C06(Check):
                 yield threaded(c, {"t": "random", "seed": rng.randrange(1 << 30)})
             for c in scope([a for a in ALPHA if a not in DROP], 2, 2, label="scope2x2-wide"):      # 421^2
                 yield c
+            for c in wake_ways(full=True): yield c
+            for c in wake_scopes("thorough"):
+                if not c["label"].endswith(("scope2x2", "scope3x1", "lottery")): yield c
             for c in scope(ALPHA, 3, 1, label="scope3x1-full"):                  # 26^3
                 yield c
             for c in scope([NUM0, RAISE], 3, 3, label="scope3x3"):               # 15^3
@@ -1150,15 +1410,27 @@ class C06(Check):
 
     KEYS = ("trace", "quit", "crashed", "cycles", "now", "ready", "incoming", "hub")
 
-    def model_request(self, case):
+    def model_request2(self, case, obs):
+        """cases with `wake` yields: when every wake of the run was one that must change nothing (the target was in the ready
+        queue: Pox.C06.schedule_queued_noop; or the harness made no call), the run must be that of the same programs with
+        `yield 0` in their place"""
+        if case.get("kind") == "epoll" or case.get("mode") == "threaded": return None
+        if not any(y[0] == "wake" for p in case["progs"] for y in p): return None
+        o = self._o(obs)
+        if any(w[4] not in ("noop", "skip") for w in o.get("wakes", ())): return None
+        return self.model_request(case, wakes_are_noops=True)
+
+    def model_request(self, case, wakes_are_noops=False):
         if case.get("kind") == "epoll": return None                 # plain differential test, no model counterpart
+        has_wake = any(y[0] == "wake" for p in case["progs"] for y in p)
+        if has_wake and not wakes_are_noops: return None            # see model_request2
         if case.get("mode") == "threaded" and not schedule_independent(case):
             return None                                             # more than one legal outcome: the oracle alone judges
         if case.get("cbacts"): return None                          # callbacks that act on timers are not modelled: the oracle alone judges
         if any(len(t) > 4 and t[4] for t in case["timers"]): return None      # nor are timers started later by a task (`tstart`)
         r = {k: v for k, v in case.items() if k not in ("label", "_iso", "mode", "sched", "conv", "cbacts")}
         r.setdefault("prios", []); r.setdefault("draws", [])
-        if any(y[0] in ("badop", "braise", "tstart") for p in r["progs"] for y in p):
+        if any(y[0] in ("badop", "braise", "tstart", "wake", "dummy") for p in r["progs"] for y in p):
             # an operation whose execute() raises = the task is never scheduled again.  A BaseException that is not an Exception: a
             # top-level task dies like from any exception; in a sub-task AgainTask does not forward it (it catches Exception), so the
             # wrapper dies and the caller stays blocked - for the model: the sub-task is never scheduled again
@@ -1168,6 +1440,8 @@ class C06(Check):
                 if y[0] == "badop": return ["sleep", None]
                 if y[0] == "braise": return ["sleep", None] if k in called else ["raise", 1]
                 if y[0] == "tstart": return ["num", 0]                 # no deferred timer in this case: a no-op
+                if y[0] == "wake": return ["num", 0]                   # a wake that changes nothing, then `yield 0`
+                if y[0] == "dummy": return ["sleepabs", 0]             # DummyOp: fast_schedule at once (the value: oracle; see impl_view)
                 return y
             r["progs"] = [[m(k, y) for y in p] for k, p in enumerate(r["progs"])]
         r["timers"] = [list(t[:4]) for t in r["timers"]]
@@ -1184,6 +1458,16 @@ class C06(Check):
         o = self._o(obs)
         if case.get("mode") == "threaded":
             return per_task_view(case, o["trace"], o["subs"])
+        if any(y[0] == "dummy" for p in case["progs"] for y in p):
+            # the model runs DummyOp(v) as Sleep(0, absoluteTime=True) (both: fast_schedule at once): it notes wake time 0 and hands
+            # back nothing; that v arrives is demanded by the oracle
+            tab = task_table(case, o); tr = []
+            for e in o["trace"]:
+                if e[0] == "s" and e[2] > 0 and e[1] in tab and e[2] <= len(tab[e[1]][0]) and tab[e[1]][0][e[2] - 1][0] == "dummy":
+                    e = e[:4] + [None, [0, False], None]
+                tr.append(e)
+            v = {k: o[k] for k in self.KEYS}; v["trace"] = tr
+            return v
         return {k: o[k] for k in self.KEYS}
 
     # -- the property itself, on the implementation's observables (independent of the model)
@@ -1304,7 +1588,7 @@ def oracle(chk, case, o):
         if y[0] == "raise": return ["exc", "E%d" % y[1]]
         if y[0] == "num": return ["num", y[1]]
         if y[0] == "block": return ["false"]
-        if y[0] in ("cancel", "tstart"): return ["num", 0]
+        if y[0] in ("cancel", "tstart", "wake"): return ["num", 0]
         return None
     for tid, k, ptid, pidx in o["subs"]:
         out = outcome(tid)
@@ -1331,18 +1615,30 @@ def oracle(chk, case, o):
             r = e[4]
             if r is not None and r[0] in ("num", "false", "exc", "data"):
                 prev = prog[e[2] - 1][0] if e[2] > 0 else None
-                ok = (prev == "again") or (r[0] == "num" and prev == "send") or (r[0] == "data" and prev == "recv")
+                ok = (prev == "again") or (r[0] == "num" and prev == "send") or (r[0] == "data" and prev == "recv") or (r[0] == "num" and prev == "dummy")
                 if not ok: return "stray-result | task %d step %d received %s after yielding %s" % (tid, e[2], r, prev)
     # 4b. a task is resumed from a blocking operation only when that operation has completed, with the operation's own result
     #     (Send: the byte count, all bytes unless it timed out or the descriptor is in error; Recv: data or None; Select: ready
     #     subsets of what was asked or the timeout tuple; Sleep / n>0: the timeout tuple; 0: None)
     xtab = case["x"]
+    wakes = o.get("wakes", ())
     for tid, evs in steps.items():
         prog = tab[tid][0]
-        for _, e in evs:
+        woken = 0
+        for q, e in evs:
             if e[2] == 0 or e[2] > len(prog): continue
             y = prog[e[2] - 1]; r = e[4]
             if r is not None and r[0] == "exc": continue                     # only after `again` (checked above)
+            if (y[0] == "block" or y == ["sleep", None]) and tab[tid][1] is None:
+                # a blocked task runs again only because somebody scheduled it: one resume per wake that was issued for it before
+                # (a cross-thread wake issued while it was still queued counts: it is carried out after the task's next step)
+                woken += 1
+                issued = sum(1 for w in wakes if w[2] == tid and w[4] in ("eff", "st-b", "st-q") and w[0] <= q)
+                if woken > issued:
+                    return "resumed-from-block | task %d was resumed after %s: %d resumes of this kind, %d wakes" % (tid, y, woken, issued)
+                if r is not None:
+                    return "wake:wrong-result | task %d, woken by schedule(), received %s" % (tid, r)
+                continue
             if y[0] == "send":
                 err = y[1] < len(xtab) and xtab[y[1]] is not None
                 ok = r is not None and r[0] == "num" and 0 <= r[1] <= y[2] and (r[1] == y[2] or y[3] is not None or err)
@@ -1359,7 +1655,10 @@ def oracle(chk, case, o):
             elif (y[0] in ("sleep", "sleepabs") and y[1] is not None) or (y[0] == "num" and y[1] > 0):
                 if not (r == TIMEOUT or (r is None and y[0] != "num")):
                     return "sleep:wrong-result | task %d resumed from %s with %s" % (tid, y, r)
-            elif y[0] in ("num", "cancel", "tstart"):
+            elif y[0] == "dummy":
+                if r != ["num", y[1]]:
+                    return "dummy:wrong-result | task %d resumed from DummyOp(%d) with %s" % (tid, y[1], r)
+            elif y[0] in ("num", "cancel", "tstart", "wake"):
                 if r is not None and tab[tid][1] is None:
                     return "yield0:wrong-result | task %d resumed from %s with %s" % (tid, y, r)
             elif y[0] in ("block", "exit", "badop", "braise", "raise") or y == ["sleep", None]:
@@ -1404,7 +1703,8 @@ def oracle(chk, case, o):
                 for x in trace[p + 1:q]:
                     if x[0] != "s": continue
                     b = x[1]; bp = tab[b][0]
-                    front = (x[2] == 0 and tab[b][1] is not None) or (x[2] > 0 and bp[x[2] - 1][0] == "again")
+                    front = ((x[2] == 0 and tab[b][1] is not None) or (x[2] > 0 and bp[x[2] - 1][0] == "again") or
+                             (0 < x[2] <= len(bp) and (bp[x[2] - 1][0] == "block" or bp[x[2] - 1] == ["sleep", None])))     # woken: schedule(first=True)
                     if not front:
                         seen[b] = seen.get(b, 0) + 1
                         if seen[b] > 1: return "unfair | task %d ran twice while task %d was waiting in the ready deque" % (b, tid)
@@ -1424,12 +1724,22 @@ def oracle(chk, case, o):
             if i == len(prog): continue
             if i > 0 and prog[i - 1][0] == "again" and not prog[i - 1][2] and last[4] is not None and last[4][0] == "exc": continue
             y = prog[i]
+            if (y[0] == "block" or y == ["sleep", None]) and ptid is None:
+                lastpos = evs[-1][0]
+                for w in wakes:
+                    if w[2] != tid: continue
+                    if w[4] in ("eff", "st-b") and w[0] > lastpos:
+                        return "lost-wakeup:wake | task %d was scheduled after it blocked (step %d) and never ran again" % (tid, i)
+                    if w[4] == "st-q" and prio_of(tid) >= 8:           # carried out right after the target's next step: if that step blocks, it is woken
+                        nxt = [p_ for p_, _ in evs if p_ >= w[0]]
+                        if nxt and nxt[0] == lastpos:
+                            return "lost-wakeup:wake | task %d was scheduled from another thread before it blocked (step %d) and never ran again" % (tid, i)
             may_block = (y[0] in ("block", "raise", "braise", "exit", "badop") or y == ["sleep", None]
                          or (y[0] == "select" and y[4] is None and never(y[1], "r") and never(y[2], "w") and never(y[3], "x"))
                          or (y[0] == "recv" and y[2] is None and never([y[1]], "r") and never([y[1]], "x"))
                          or (y[0] == "send" and y[3] is None and never([y[1]], "w") and never([y[1]], "x"))
                          or (y[0] == "again" and (tid, i) in child_of and outcome(child_of[(tid, i)]) is None)
-                         or (ptid is not None and y[0] in ("num", "cancel", "tstart")))          # plain yield in a sub-task = return (checked in 4)
+                         or (ptid is not None and y[0] in ("num", "cancel", "tstart", "wake")))  # plain yield in a sub-task = return (checked in 4)
             if not may_block:
                 return "lost-wakeup:%s | task %d is still waiting on %s although nothing else can happen" % (y[0], tid, y)
         for j, spec in enumerate(case["timers"]):
@@ -1443,7 +1753,7 @@ def oracle(chk, case, o):
     if raised and not case.get("_iso"):
         c2 = dict(case); c2["_iso"] = True
         ks = set(case["tasks"][tid] for tid, _ in raised)
-        c2["progs"] = [[(["block"] if (k in ks and y[0] in ("raise", "braise")) else y) for y in p] for k, p in enumerate(case["progs"])]
+        c2["progs"] = [[(["dead"] if (k in ks and y[0] in ("raise", "braise")) else y) for y in p] for k, p in enumerate(case["progs"])]
         if case.get("mode") == "threaded":                          # same schedule; compare what each task saw
             o2 = ThreadedRun(chk.rc, c2).go()
             if per_task_view(case, o2["trace"], o2["subs"]) != per_task_view(case, o["trace"], o["subs"]):
